@@ -301,6 +301,16 @@ class _BytearrayMeta(type):
         return _isinstance(obj, _bytearray) or (
             _isinstance(obj, SymBytes) and obj.mutable)
 
+    # `type(x) == bytearray` inside shimmed modules (sx_type() answers with
+    # the builtin class, the name `bytearray` is this shim)
+    def __eq__(cls, other):
+        return other is cls or other is _bytearray
+
+    def __ne__(cls, other):
+        return not (other is cls or other is _bytearray)
+
+    __hash__ = type.__hash__
+
 
 class sx_bytearray(metaclass=_BytearrayMeta):
     """bytearray() inside nfc modules always yields a mutable SymBytes."""
@@ -362,6 +372,15 @@ class _IntMeta(type):
     def __instancecheck__(cls, obj):
         return _isinstance(obj, (_int, SymInt, SymBool))
 
+    # `type(x) == int` (pn53x.Chipset.write_register)
+    def __eq__(cls, other):
+        return other is cls or other is _int
+
+    def __ne__(cls, other):
+        return not (other is cls or other is _int)
+
+    __hash__ = type.__hash__
+
 
 class sx_int(metaclass=_IntMeta):
     from_bytes = _int.from_bytes
@@ -378,6 +397,14 @@ class _BytesMeta(type):
     def __instancecheck__(cls, obj):
         return _isinstance(obj, _bytes) or (
             _isinstance(obj, SymBytes) and not obj.mutable)
+
+    def __eq__(cls, other):
+        return other is cls or other is _bytes
+
+    def __ne__(cls, other):
+        return not (other is cls or other is _bytes)
+
+    __hash__ = type.__hash__
 
 
 class sx_bytes_t(metaclass=_BytesMeta):
